@@ -43,6 +43,10 @@ def reducer(*tokens):
     return decorator
 
 
+# Terminal tokens which can never be the result of a successful parse
+_UNREDUCED_TOKENS = ('(', ')', 'and', 'or', 'not', 'string')
+
+
 class ParseStateMeta(type):
     """Metaclass for the :class:`.ParseState` class.
 
@@ -134,6 +138,9 @@ class ParseState(metaclass=ParseStateMeta):
         """
 
         if len(self.values) != 1:
+            raise ValueError('Could not parse rule')
+        if self.tokens[0] in _UNREDUCED_TOKENS:
+            # A lone operator, parenthesis or quoted string is not a rule
             raise ValueError('Could not parse rule')
         return self.values[0]
 
